@@ -22,13 +22,30 @@ LINE = re.compile(r"^(\d+)\s+(\w+)\((.*)\)\s+=\s+(-?\d+|\?)(.*)$")
 
 
 def trace_case(arg):
-    bld, target, sizes, prefill, root, idx = arg
+    bld, target, sizes, prefill, root, idx = arg[:6]
+    full_at = arg[6] if len(arg) > 6 else None       # "file" target on a tmpfs of that many bytes: the disk fills up mid-record
     work = os.path.join(root, "t%03d" % idx)
     os.makedirs(work, exist_ok=True)
     os.chmod(work, 0o777)
     F = Findings(PROP)
     st = dict(records=0, single_write=0)
     logf = os.path.join(work, "log")
+    if full_at:
+        fsd = os.path.join(work, "fs")
+        os.makedirs(fsd, exist_ok=True)
+        m = subprocess.run(["mount", "-t", "tmpfs", "-o", "size=%d,mode=0777" % full_at, "none", fsd], capture_output=True)
+        if m.returncode != 0:
+            raise Harness("cannot mount a small tmpfs: %s" % m.stderr[-200:])
+        logf = os.path.join(fsd, "log")
+    try:
+        return _trace_case(bld, target, sizes, prefill, work, logf, F, st, full_at)
+    finally:
+        if full_at:
+            subprocess.run(["umount", "-l", fsd], capture_output=True)
+        rmwork(work)
+
+
+def _trace_case(bld, target, sizes, prefill, work, logf, F, st, full_at):
     if prefill is not None:
         with open(logf, "wb") as f:
             f.write(prefill)
@@ -94,6 +111,12 @@ def trace_case(arg):
         bad = [nm for nm, a2, r2, _ in w if nm in ("ftruncate",) and a2.split(",")[0].strip() == fd]
         if bad:
             F.violation("C17:seek-or-truncate:%s" % target, "%s on the log descriptor" % bad, wit)
+        if full_at and len(writes) == 1 and writes[0][2] != str(reclen) and writes[0][1].rsplit(",", 1)[-1].strip() == str(reclen):
+            # the disk is full: the kernel took only a part of the record, or nothing (that is not the library's doing); what
+            # counts here is that nothing else happens to the file - no truncation (above), no second attempt that could land
+            # behind another writer's record, and the bytes in front stay as they are (content comparison below)
+            st["short_or_failed_writes"] = st.get("short_or_failed_writes", 0) + 1
+            continue
         if len(writes) != 1:
             cls = "at-or-above-4096" if reclen >= 4096 else "below-4096"
             F.violation("C17:record-split-into-%d-writes:%s:%s" % (len(writes), cls, target),
@@ -111,10 +134,11 @@ def trace_case(arg):
         with open(logf, "rb") as f:
             data = f.read()
         want = prefill + b"".join(m + b"\n" for m in msgs)
+        if full_at:
+            want = want[:len(data)] if len(data) >= len(prefill) and st.get("short_or_failed_writes") else want
         if data != want:
             key = "pre-existing-content-changed" if not data.startswith(prefill) else "file-content-differs"
             F.violation("C17:" + key, "file is %d bytes, expected %d (prefill %d)" % (len(data), len(want), len(prefill)), dict(target=target))
-    rmwork(work)
     return F, st
 
 
@@ -136,6 +160,11 @@ def stress_round(arg):
                        env=env, capture_output=True, timeout=900, cwd=work)
     F = Findings(PROP)
     st = dict(stress_records=0, stress_rounds=1, stress_writers=procs * threads)
+    if r.returncode == 5:
+        # a writer process died of a signal inside the logging path (no other code runs in the writers)
+        F.violation("C17:stress:writer-crashed", "a writer process died while %d processes x %d threads were appending: %s" % (
+            procs, threads, r.stderr[-200:].decode("latin-1")), dict(procs=procs, threads=threads, seed=seed))
+        return F, st
     if r.returncode != 0:
         raise Harness("vwriters failed rc=%d %s" % (r.returncode, r.stderr[-300:]))
     issued = {}
@@ -201,6 +230,10 @@ def main():
         jobs.append((bld, "file", ch, rng.choice([None, b"", b"old line\n", b"unterminated old content", b"x" * 5000 + b"\n"]), root, idx))
         idx += 1
     jobs.append((bld, "file", [1, 100, 4096, 5000], None, root, idx)); idx += 1      # fresh file, created by the first record
+    # the disk fills up while a record is being written (tmpfs of 2 or 3 pages): short write, then ENOSPC
+    jobs.append((bld, "file", [100, 2000, 3000, 50, 4000], b"x" * 5000 + b"\n", root, idx, 8192)); idx += 1
+    jobs.append((bld, "file", [5000, 5000, 5000, 1], b"", root, idx, 12288)); idx += 1
+    jobs.append((bld, "file", [8191, 1, 1, 7000], None, root, idx, 8192)); idx += 1
     jobs.append((bld, "devnull", SIZES, b"", root, idx)); idx += 1
     jobs.append((bld, "devtty", [1, 2, 100, 1000], b"", root, idx)); idx += 1
     for f, st in pmap(trace_case, jobs, 16):
